@@ -539,6 +539,50 @@ def translate_converters(repo: Path):
     return out
 
 
+def translate_unionstruct(repo: Path):
+    file = "src/cattrs/converters.py"
+    mod = ast.parse((repo / file).read_text())
+    base = _find_class(mod, "BaseConverter", file)
+    return {"none_guard_identity": _union_structure_guard(base, file)}
+
+
+def emit_unionstruct(u) -> str:
+    return ("(* GENERATED by harness/t1_translate.py from src/cattrs/converters.py (_gen_attrs_union_structure) -- do not edit *)\n"
+            "(* `if obj is None: return None` (true) / a truthiness test (false) *)\n"
+            f"Definition src_union_none_guard_is_identity : bool := {_coq_bool(u['none_guard_identity'])}.\n")
+
+
+def _union_structure_guard(base, file):
+    """BaseConverter._gen_attrs_union_structure: with None among the members the hook returns None for `obj is None` (True) or
+    for every falsy payload (False); every other payload goes to self.structure(obj, dis_fn(obj)) in both variants."""
+    fn = _find_method(base, "_gen_attrs_union_structure", file)
+    body = _strip_doc(fn.body)
+    srcs = [_src(x) for x in body]
+    ifs = [x for x in body if isinstance(x, ast.If)]
+    if "has_none = NoneType in cl.__args__" not in srcs or len(ifs) != 1 or _src(ifs[0].test) != "has_none" or srcs[-1] != "return structure_attrs_union":
+        raise T1Unrecognised(file, fn.lineno, "_gen_attrs_union_structure: expected `has_none = NoneType in cl.__args__`, one `if has_none:` and the return of the closure")
+    if not any(s.startswith("dis_fn = self._get_dis_func(cl") for s in srcs):
+        raise T1Unrecognised(file, fn.lineno, "_gen_attrs_union_structure: dis_fn is not self._get_dis_func(cl, ...)")
+
+    def closure(stmts, where):
+        if len(stmts) != 1 or not isinstance(stmts[0], ast.FunctionDef) or stmts[0].name != "structure_attrs_union":
+            raise T1Unrecognised(file, fn.lineno, f"_gen_attrs_union_structure: {where} branch is not one closure")
+        return _strip_doc(stmts[0].body), stmts[0].args.args[0].arg
+    nb, na = closure(ifs[0].body, "has_none")
+    pb, pa = closure(ifs[0].orelse, "else")
+    if [_src(x) for x in pb] != [f"return self.structure({pa}, dis_fn({pa}))"]:
+        raise T1Unrecognised(file, fn.lineno, "_gen_attrs_union_structure: closure without None")
+    if not (len(nb) == 2 and isinstance(nb[0], ast.If) and not nb[0].orelse and [_src(x) for x in nb[0].body] == ["return None"]
+            and _src(nb[1]) == f"return self.structure({na}, dis_fn({na}))"):
+        raise T1Unrecognised(file, fn.lineno, "_gen_attrs_union_structure: closure with None")
+    test = _src(nb[0].test)
+    if test == f"{na} is None":
+        return True
+    if test == f"not {na}":
+        return False
+    raise T1Unrecognised(file, nb[0].lineno, f"_gen_attrs_union_structure: None guard `{test}`")
+
+
 def emit_converters(cv, dcfg) -> str:
     L = ["(* GENERATED by harness/t1_translate.py from src/cattrs/converters.py -- do not edit *)",
          "From V.Model Require Import Base Dispatch Routing."]
@@ -1140,6 +1184,15 @@ def main():
         summary["ok"] = False
         summary["errors"].append(str(e))
         summary["sections"]["subclasses"] = False
+    try:
+        us = translate_unionstruct(repo)
+        write("UStructSrc.v", emit_unionstruct(us))
+        summary["unionstruct"] = us
+        summary["sections"]["unionstruct"] = True
+    except T1Unrecognised as e:
+        summary["ok"] = False
+        summary["errors"].append(str(e))
+        summary["sections"]["unionstruct"] = False
     print(json.dumps(summary))
     return 0 if summary["ok"] else 3
 
